@@ -80,3 +80,26 @@ func init() {
 		},
 	})
 }
+
+// methodUnits verifies the contract of a method of a generic type for every
+// instantiation of the receiver in the program: names look like
+// "(pkg.T[inst]).Method"; the contract is written as "(T).Method".
+func (c *Ctx) methodUnits(prefix, suffix string, mk func(us *UnitSpec)) []*vc.Unit {
+	var units []*vc.Unit
+	for _, n := range c.P.FuncsMatching(prefix + "[") {
+		if !(strings.HasSuffix(n, suffix) || strings.Contains(n, suffix+"[")) || strings.Contains(n, "[T]") || strings.Contains(n, "$") {
+			continue
+		}
+		n := n
+		units = append(units, c.ContractUnits(prefix+suffix, func(us *UnitSpec) {
+			us.FuncName = n
+			if mk != nil {
+				mk(us)
+			}
+		})...)
+	}
+	if len(units) == 0 {
+		panic("no instantiation of " + prefix + suffix + " in the program")
+	}
+	return units
+}
